@@ -31,6 +31,8 @@ type aliasEngine struct {
 	sum   map[*ssa.Function]map[int][]aroot
 	impls map[string][]*ssa.Function
 	Unresolved int // calls through function values met while following results (treated as fresh)
+	taken map[*ssa.Function]bool
+	bySig map[string][]*ssa.Function
 }
 
 func (w *World) aliasEngine() *aliasEngine {
@@ -70,6 +72,59 @@ func (e *aliasEngine) implementations(iface types.Type, method string) []*ssa.Fu
 	}
 	sort.Slice(out, func(i, j int) bool { return out[i].String() < out[j].String() })
 	e.impls[key] = out
+	return out
+}
+
+// addressTakenWithSig: fork functions (and closures) of exactly this signature that are used as values
+// somewhere in the fork (stored into a table, returned, passed on, bound as a closure).
+func (e *aliasEngine) addressTakenWithSig(sig *types.Signature) []*ssa.Function {
+	if e.taken == nil {
+		e.taken = map[*ssa.Function]bool{}
+		for _, fn := range e.w.forkFuncsAll() {
+			for _, b := range fn.Blocks {
+				for _, ins := range b.Instrs {
+					if mc, ok := ins.(*ssa.MakeClosure); ok {
+						if g, ok := mc.Fn.(*ssa.Function); ok {
+							e.taken[g] = true
+						}
+					}
+					var rands []*ssa.Value
+					for _, r := range ins.Operands(rands) {
+						f, ok := (*r).(*ssa.Function)
+						if !ok {
+							continue
+						}
+						if ci, isCall := ins.(ssa.CallInstruction); isCall && ci.Common().Value == ssa.Value(f) {
+							continue
+						}
+						e.taken[f] = true
+					}
+				}
+			}
+		}
+	}
+	key := sig.String()
+	if v, ok := e.bySig[key]; ok {
+		return v
+	}
+	var out []*ssa.Function
+	for f := range e.taken {
+		if f.Blocks == nil {
+			continue
+		}
+		fs := f.Signature
+		if fs.Recv() != nil {
+			continue
+		}
+		if types.Identical(types.NewSignatureType(nil, nil, nil, fs.Params(), fs.Results(), fs.Variadic()), types.NewSignatureType(nil, nil, nil, sig.Params(), sig.Results(), sig.Variadic())) {
+			out = append(out, f)
+		}
+	}
+	sort.Slice(out, func(i, j int) bool { return out[i].String() < out[j].String() })
+	if e.bySig == nil {
+		e.bySig = map[string][]*ssa.Function{}
+	}
+	e.bySig[key] = out
 	return out
 }
 
@@ -115,13 +170,29 @@ func (e *aliasEngine) callResult(c *ssa.Call, idx int, seen map[ssa.Value]bool) 
 	if invoke {
 		callees = e.implementations(com.Value.Type(), com.Method.Name())
 	} else if f := com.StaticCallee(); f != nil {
+		if ownedResult[normPath(f.String())] {
+			// what a finished frame hands back points into that frame's own Memory object, which nobody
+			// touches again (R8.4 checks the premise: memories are fresh per frame and never pooled)
+			return nil
+		}
 		if f.Blocks != nil && (isForkPkg(f.Pkg) || f.Parent() != nil) {
 			callees = []*ssa.Function{f}
+		} else if rv := f.Signature.Recv(); rv != nil && isBignumPtr(rv.Type()) && len(com.Args) > 0 && f.Signature.Results().Len() >= 1 && types.Identical(f.Signature.Results().At(0).Type(), rv.Type()) && f.Name() != "Clone" {
+			// z.Op(x, y) of big.Int / uint256.Int returns its receiver
+			if idx == 0 {
+				return e.rootsOf(com.Args[0], seen)
+			}
+			return nil
 		} else if passThroughExt[normPath(f.String())] && len(com.Args) > 0 {
 			return e.rootsOf(com.Args[0], seen)
 		}
 	} else if _, isBuiltin := com.Value.(*ssa.Builtin); !isBuiltin {
-		e.Unresolved++
+		// a call through a function value (e.g. operation.execute from the instruction table): every
+		// fork function of exactly this signature whose address is taken somewhere may be the callee
+		callees = e.addressTakenWithSig(com.Signature())
+		if len(callees) == 0 {
+			e.Unresolved++
+		}
 	}
 	var out []aroot
 	for _, f := range callees {
@@ -299,3 +370,9 @@ func (e *aliasEngine) rootsOf(v ssa.Value, seen map[ssa.Value]bool) []aroot {
 }
 
 var _ = strings.HasPrefix
+
+// ownedResult: calls whose result, although it points into interpreter memory, is owned by the caller
+// because the memory it points into is dead when the call returns (one symbol, one reason).
+var ownedResult = map[string]bool{
+	"(*P0.EVMInterpreter).Run": true, // the callee frame's Memory is allocated in Run and unreachable after it returns (premise: R8.4)
+}
